@@ -189,16 +189,19 @@ LAYERS = {
     'LIBGROUP': [(r'lib\.rs', r'impl G[12]::(?!from_|to_).*|impl Group for G[12].*|impl (Add|Sub|Neg|Mul) .*G[12].*|impl .* for (G[12]|AffineG[12])::.*')],
     'LIBPAIR': [(r'lib\.rs', r'impl From < G2 > for G2Prepared.*|impl G2Prepared.*|::pairing$|::fast_pairing$|impl Group for G[12]::normalize')],
     'LIBCODEC': [(r'lib\.rs', r'impl G[12]\b.*::(from_|to_).*|impl AffineG[12]\b.*|impl From < AffineG[12] >.*')],
+    # the field wrappers of lib.rs that the point codecs are written with (`Fq::from_slice`, `to_big_endian`, `is_even`, `Fq2::from_slice`,
+    # `to_slice`, `is_even`, `real`, `imaginary`, `Fq::sqrt`, `Fq2::sqrt`)
+    'LIBFIELD': [(r'lib\.rs', r'impl Fq\b.*|impl Fq2\b.*|impl TryFrom .* for Fq2.*|impl From < Fq2 >.*|impl .* for Fq2::.*|impl .* for Fq::.*')],
     'ALL': [(r'.*', r'.*')],
 }
 PROP_LAYERS = {
     'C01': 'PAIR LIBPAIR TOWER FQ2 GROUPS LIBGROUP FQ BITS', 'C02': 'PAIR LIBPAIR TOWER FQ2 GROUPS FQ CODEC',
     'C03': 'PAIR LIBPAIR TOWER FQ2 GROUPS FQ', 'C04': 'GROUPS LIBGROUP FQ2 FQ', 'C05': 'GROUPS LIBGROUP FQ2 FQ BITS',
     'C07': 'FQ2 FQ2SQRT FQ2CODEC FQSQRT POW',
-    'C08': 'LIBCODEC GROUPS FQ2 FQ2SQRT FQ2CODEC FQSQRT POW BITS CODEC FQ', 'C09': 'LIBCODEC GROUPS FQ2 FQ2SQRT FQ2CODEC FQSQRT POW BITS CODEC FQ',
-    'C10': 'LIBCODEC GROUPS FQ2 FQ2SQRT FQ2CODEC FQSQRT POW BITS CODEC FQ', 'C11': 'TOWER FQ2 FQ BITS CODEC',
-    'C12': 'FQ2 FQ2CODEC FQ CODEC', 'C14': 'FQSQRT FQ2SQRT FQ2 FQ POW BITS', 'C15': 'GROUPS LIBGROUP FQ2 FQ',
-    'C16': 'PAIR LIBPAIR TOWER FQ2 FQ2SQRT FQ2CODEC GROUPS LIBGROUP LIBCODEC FQ FQSQRT POW BITS CODEC',
+    'C08': 'LIBCODEC LIBFIELD GROUPS FQ2 FQ2SQRT FQ2CODEC FQSQRT POW BITS CODEC FQ', 'C09': 'LIBCODEC LIBFIELD GROUPS FQ2 FQ2SQRT FQ2CODEC FQSQRT POW BITS CODEC FQ',
+    'C10': 'LIBCODEC LIBFIELD GROUPS FQ2 FQ2SQRT FQ2CODEC FQSQRT POW BITS CODEC FQ', 'C11': 'TOWER FQ2 FQ BITS CODEC',
+    'C12': 'FQ2 FQ2CODEC FQ CODEC', 'C14': 'FQSQRT FQ2SQRT FQ2 FQ POW BITS LIBFIELD', 'C15': 'GROUPS LIBGROUP FQ2 FQ',
+    'C16': 'PAIR LIBPAIR TOWER FQ2 FQ2SQRT FQ2CODEC GROUPS LIBGROUP LIBCODEC LIBFIELD FQ FQSQRT POW BITS CODEC',
     'C17': 'TOWER PAIR FQ2 FQ', 'C18': 'ALL',
 }
 
